@@ -103,6 +103,23 @@ def gen_hp(rng, name, kinds):
     raise HarnessError(f"unknown kind {kind}")
 
 
+def with_default(rng, hp, force=False):
+    """declare an explicit default value that is NOT the canonical inactive value (lower bound /
+    first choice), or weights whose most probable choice is not the first one: the canonical
+    value of an inactive hyperparameter must not depend on either"""
+    hp = dict(hp)
+    if hp["kind"] in ("cat", "ord") and len(hp["choices"]) >= 2:
+        if force or rng.random() < 0.35:
+            hp["default"] = rng.choice(hp["choices"][1:])
+        if hp["kind"] == "cat" and rng.random() < (0.5 if force else 0.2):
+            w = [rng.choice([1, 2]) for _ in hp["choices"]]
+            w[rng.randrange(1, len(w))] = 5
+            hp["weights"] = [x / sum(w) for x in w]
+    elif hp["kind"] in ("int", "float") and (force or rng.random() < 0.25):
+        hp["default"] = hp["hi"] if rng.random() < 0.5 or hp["kind"] == "float" else min(hp["hi"], hp["lo"] + 1)
+    return hp
+
+
 ALL_KINDS = ["int", "int_log", "float", "float_log", "cat_str", "cat_bool", "ord_int", "ord_float", "const"]
 FINITE_KINDS = ["cat_str", "cat_bool", "ord_int", "ord_float"]
 
@@ -121,8 +138,10 @@ def _values_of(hp):
 def gen_spec(rng, n_hps=None, kinds=None, constrained=False):
     kinds = kinds or ALL_KINDS
     n = n_hps or rng.randint(1, 6)
-    hps = [gen_hp(rng, f"h{i}", kinds) for i in range(n)]
+    hps = [with_default(rng, gen_hp(rng, f"h{i}", kinds)) for i in range(n)]
     spec = {"hps": hps, "conds": [], "forbs": []}
+    if rng.random() < 0.3:
+        spec["api"] = "bulk"  # HpProblem.add_hyperparameters / add_conditions
     if constrained and n >= 2:
         # conditions: child i depends on earlier-named hyperparameters (acyclic by construction)
         n_conds = rng.randint(0, 2)
@@ -142,6 +161,9 @@ def gen_spec(rng, n_hps=None, kinds=None, constrained=False):
             if cond is None:
                 continue
             children.append(child)
+            if rng.random() < 0.6:
+                # a conditional child whose default is not its canonical inactive value
+                hps[child] = with_default(rng, {k: v for k, v in hps[child].items() if k not in ("default", "weights")}, force=True)
             spec["conds"].append({"child": hps[child]["name"], "cond": cond})
         n_forb = rng.randint(0 if spec["conds"] else 1, 1)
         for _ in range(n_forb):
@@ -246,6 +268,8 @@ def build_problem(spec):
 
     p = HpProblem()
     objs = {}
+    bulk = spec.get("api") == "bulk"
+    pending = []
     for h in spec["hps"]:
         if h["kind"] == "int":
             v = (h["lo"], h["hi"], "log-uniform") if h["log"] else (h["lo"], h["hi"])
@@ -255,7 +279,24 @@ def build_problem(spec):
             v = h["choices"][0]
         else:
             v = list(h["choices"])
-        objs[h["name"]] = p.add_hyperparameter(v, h["name"])
+        if h["kind"] == "cat" and ("weights" in h or "default" in h):
+            v = csh.CategoricalHyperparameter(h["name"], choices=list(h["choices"]), weights=h.get("weights"),
+                                              **({"default_value": h["default"]} if "default" in h else {}))
+        elif h["kind"] == "ord" and "default" in h:
+            v = csh.OrdinalHyperparameter(h["name"], sequence=list(h["choices"]), default_value=h["default"])
+        dflt = h.get("default") if h["kind"] in ("int", "float") else None
+        if dflt is not None and h["kind"] == "float":
+            dflt = float(dflt)
+        if bulk:
+            # the same hyperparameter as a ConfigSpace object, added through add_hyperparameters
+            from deephyper.hpo._problem import check_hyperparameter
+
+            objs[h["name"]] = check_hyperparameter(v, h["name"], default_value=dflt)
+            pending.append(objs[h["name"]])
+        else:
+            objs[h["name"]] = p.add_hyperparameter(v, h["name"], default_value=dflt)
+    if pending:
+        p.add_hyperparameters(pending)
 
     def cond(child, c):
         if c["op"] == "and":
@@ -276,8 +317,11 @@ def build_problem(spec):
             return CS.ForbiddenInClause(objs[f["hp"]], list(f["values"]))
         return CS.ForbiddenEqualsClause(objs[f["hp"]], f["value"])
 
-    for c in spec["conds"]:
-        p.add_condition(cond(objs[c["child"]], c["cond"]))
+    if bulk and spec["conds"]:
+        p.add_conditions([cond(objs[c["child"]], c["cond"]) for c in spec["conds"]])
+    else:
+        for c in spec["conds"]:
+            p.add_condition(cond(objs[c["child"]], c["cond"]))
     for f in spec["forbs"]:
         p.add_forbidden_clause(forb(f))
     return p
@@ -620,17 +664,31 @@ def _run_cell2(args):
 
 
 
-def run_cells(ck, cells):
+def run_cells(ck, cells, inprocess=()):
     """run the cells against the real code in a pool of worker processes (each cell carries its
-    own seed, so the result does not depend on the scheduling)"""
+    own seed, so the result does not depend on the scheduling).  The cells whose index is in
+    `inprocess` run in the check's own process, where the line-coverage probe of `main.py` sees
+    them."""
     import concurrent.futures as cf
     import os
 
     workers = int(os.environ.get("VERIF_WORKERS", "0") or 0) or ck.pick(8, 14)
     if workers <= 1 or len(cells) <= 2:
         return [run_cell(c) for c in cells]
+    inprocess = set(inprocess)
+    pooled = [c for i, c in enumerate(cells) if i not in inprocess]
     with cf.ProcessPoolExecutor(max_workers=workers) as ex:
-        return list(ex.map(run_cell, cells, chunksize=max(1, len(cells) // (workers * 6))))
+        fut = ex.map(run_cell, pooled, chunksize=max(1, len(pooled) // (workers * 6))) if pooled else iter(())
+        local = {i: run_cell(cells[i]) for i in sorted(inprocess) if i < len(cells)}
+        rest = list(fut)
+    out, k = [], 0
+    for i in range(len(cells)):
+        if i in local:
+            out.append(local[i])
+        else:
+            out.append(rest[k])
+            k += 1
+    return out
 
 
 def classify_obj(obj):
@@ -680,7 +738,7 @@ def session_request(cell, decl, rec, univ=None):
     return req
 
 
-def gen_script(rng, n_rounds, max_batch, fail_p=0.2, batches=None, again_p=0.0):
+def gen_script(rng, n_rounds, max_batch, fail_p=0.2, batches=None, again_p=0.0, moo=False):
     script = []
     for k in range(n_rounds):
         n = batches[k % len(batches)] if batches else rng.randint(1, max_batch)
@@ -688,6 +746,9 @@ def gen_script(rng, n_rounds, max_batch, fail_p=0.2, batches=None, again_p=0.0):
         for _ in range(n):
             if rng.random() < fail_p:
                 objs.append(rng.choice(["F", "F_timeout", "F_crash"]))
+            elif moo:
+                # two objectives (Optimizer._moo_scalarize)
+                objs.append([round(rng.uniform(-3, 3), 3), float(rng.randint(-2, 5))])
             else:
                 objs.append(rng.choice([round(rng.uniform(-3, 3), 3), float(rng.randint(-2, 5)), rng.randint(-2, 5)]))
         tell = [rng.random() < 0.8 for _ in range(rng.randint(1, 4))]
